@@ -3,6 +3,7 @@ package main
 import (
 	"fmt"
 	"go/token"
+	"sort"
 	"strings"
 
 	"golang.org/x/tools/go/ssa"
@@ -125,6 +126,16 @@ func checkC05(c *Ctx) {
 	c.Floor("unknown.origin returns", n, 15, "unknown-operand returns of Index, GetAttr, FunctionCall, ObjectCons, For, Splat, the logical operators, TemplateJoin, JSON objects")
 	c.NotCovered("the main clause of the property: that a known part of an abstract result equals the concrete result and that refinements (not-null, prefixes, bounds, lengths) hold for every concretisation — arithmetic over cty ranges")
 	c.NotCovered("unknown values that appear inside a returned collection, and unknown results produced by go-cty operations themselves")
+	c.Rule("R2 unknown.noerror: in every function of hclsyntax (expression*.go), ext/dynblock and hcl (ops.go) that evaluates operand expressions, with the operands (all together, and each alone) taken to be cty.DynamicVal — for which every cty predicate has a fixed answer: IsKnown/IsWhollyKnown/IsNull/CanIterateElements false, every Type().IsXType() false, Type() == DynamicPseudoType true — no branch decided by those answers is followed by an error diagnostic on every path to a return: a value that is merely not known yet is never rejected")
+	var evalFns []*ssa.Function
+	for _, fn := range c.P.pkgFuncs("hclsyntax", "ext/dynblock", "hcl") {
+		file := c.P.Position(fn.Pos())
+		if strings.HasPrefix(file, "hclsyntax/expression") || strings.HasPrefix(file, "ext/dynblock/") || strings.HasPrefix(file, "ops.go") {
+			evalFns = append(evalFns, fn)
+		}
+	}
+	sort.Slice(evalFns, func(i, j int) bool { return evalFns[i].Pos() < evalFns[j].Pos() })
+	c05UnknownNoError(c, "unknown.noerror", evalFns)
 }
 
 // unknownWitness: on every path with which block b can be reached some operand is unknown: an
@@ -501,4 +512,71 @@ func (e *knownEngine) cellAssignmentJustified(b *ssa.BasicBlock, views map[ssa.V
 		}
 	}
 	return true
+}
+
+// R2 unknown.noerror: an operand that is cty.DynamicVal (unknown value of unknown type) never
+// unavoidably produces an error.
+func c05UnknownNoError(c *Ctx, rule string, fns []*ssa.Function) {
+	n, nDecided := 0, 0
+	for _, fn := range fns {
+		seeds := operandSeeds(fn)
+		if len(seeds) == 0 {
+			continue
+		}
+		n++
+		c.Fn(FuncName(fn))
+		// every operand unknown at once, and each one alone
+		configs := []map[ssa.Value]bool{{}}
+		for _, sd := range seeds {
+			configs[0][sd] = true
+		}
+		if len(seeds) > 1 {
+			for _, sd := range seeds {
+				configs = append(configs, map[ssa.Value]bool{sd: true})
+			}
+		}
+		reported := map[token.Pos]bool{}
+		bad := false
+		if exc, ok := unknownNoErrorExceptions[FuncName(fn)]; ok {
+			c.Sites++
+			c.OK(rule, FuncName(fn)+":operands", fn.Pos(), "named exception: "+exc)
+			c.Assumption(rule + " exception " + FuncName(fn) + ": " + exc)
+			continue
+		}
+		for _, cfg := range configs {
+			d := newDynval(fn, cfg)
+			for _, f := range d.spuriousErrors() {
+				nDecided++
+				if reported[f.pos] {
+					continue
+				}
+				reported[f.pos] = true
+				bad = true
+				which := "every operand"
+				if len(cfg) == 1 && len(seeds) > 1 {
+					for sd := range cfg {
+						which = pathName(sd)
+					}
+				}
+				c.Sites++
+				at := f.at.Cond.Pos()
+				if at == token.NoPos {
+					at = f.pos
+				}
+				c.Fail(rule, fmt.Sprintf("%s:error[%s]", FuncName(fn), condDesc(f.at.Cond)), at,
+					fmt.Sprintf("with %s evaluating to cty.DynamicVal (an unknown value of unknown type) the branch on %s is decided and every path from there records an error diagnostic (at %s): the evaluator rejects an operand whose value is simply not known yet, although a concrete value of a suitable type would be accepted", which, condDesc(f.at.Cond), c.P.Position(f.pos)))
+			}
+		}
+		if !bad {
+			c.Sites++
+			c.OK(rule, FuncName(fn)+":operands", fn.Pos(), fmt.Sprintf("%d operand(s): no decided branch leads unavoidably to an error", len(seeds)))
+		}
+	}
+	c.Floor(rule+" evaluators", n, 3, "functions that evaluate operand expressions")
+}
+
+// Named exceptions of unknown.noerror: one function each, with the reason the rejection of an
+// unknown operand is the contract.
+var unknownNoErrorExceptions = map[string]string{
+	"ext/dynblock.(*expandSpec).newBlock": "the labels of an hcl.Block are static Go strings: a label that is not known yet cannot be represented and is rejected by design, with a diagnostic that says so ('Dynamic block labels must be immediately-known values')",
 }
